@@ -21,10 +21,19 @@ from ..execworld import deep_counter
 CFG = {
     "weights": {"new_space": 1.0, "del_space": 0.3, "new_cells": 2.0, "set_formula": 3.5, "set_cached": 0.0,
                 "del_cells": 0.8, "add_bases": 1.2, "remove_bases": 0.6, "set_ref": 3.0, "del_ref": 0.8,
-                "set_mref": 0.8, "set_value": 0.0, "clear": 0.0, "eval": 7.0, "evalall": 1.0, "bad": 0.1},
+                "set_mref": 0.8, "set_value": 0.0, "clear": 0.0, "eval": 7.0, "evalall": 1.0, "bad": 0.1,
+                "set_param": 0.3, "eval_item": 0.6},
+    # extended vocabulary of struct_props / structworld (call-and-read formulas, space formulas that read
+    # references, the extended motif programs)
+    "ext": True,
 }
+# weights of the motif programs for the random histories: motif 8 assigns a value (uncached cells refuse that),
+# the last extended motif switches flags itself
+MOTIF_WEIGHTS = [1, 1, 4, 3, 1, 2, 1, 1, 0, 1, 1] + [1] * (len(S.MOTIFS) - 11) + [1, 1, 1, 1, 3, 0]
 RULE = ("one history of 14-28 edits/evaluations replayed under k assignments of the cached flag to the cells names "
-        "{f,g,h,k} (flag forced after each creation and formula change; `flip` ops switch a name's flag at that point of the history); non-trivial = the assignments produced at "
+        "{f,g,h,k} (flag forced after each creation and formula change; `flip` ops switch a name's flag at that point of the history, "
+        "half of them followed by an edit of a reference of a space that has such a cells; after every motif program: every cells name switched "
+        "in mid-history x every edit of an existing reference); non-trivial = the assignments produced at "
         "least one evaluation through an uncached cells whose value later changed after an edit")
 
 
@@ -70,13 +79,28 @@ def replay_with_flags(ops, flags, base=False):
 def gen_ops(rng):
     close_all()
     live = W.Live("M")
-    ops = [["set_mref", "u", 11], ["set_mref", "r", 12]] + S.motif(rng, [1, 1, 4, 3, 1, 2, 1, 1, 0, 1, 1])  # motif 8 assigns a value (uncached cells refuse that)
+    ops = [["set_mref", "u", 11], ["set_mref", "r", 12]] + S.motif(rng, MOTIF_WEIGHTS, pool=S.motifs_for(CFG))
     focus = 2 if rng.random() < 0.6 else None
     try:
         for op in ops:
             live.apply(op)
+        follow = None
         for _ in range(rng.randint(14, 28)):
-            op = S.gen_next(rng, live, CFG, ops, focus=focus) if rng.random() > 0.08 else ["flip", rng.choice(W.CELLS)]
+            if follow:
+                op, follow = follow, None
+            elif rng.random() > 0.08:
+                op = S.gen_next(rng, live, CFG, ops, focus=focus)
+            else:
+                op = ["flip", rng.choice(W.CELLS)]
+                # a flag switch in mid-history is most interesting when a definition the switched cells
+                # reads changes next: half of the switches are followed by an edit of an existing reference
+                # of a space that has a cells of that name
+                holders = [(p, sp) for p, sp in W.all_spaces(live.m) if op[1] in sp.cells
+                           and [r for r in sp._own_refs if not hasattr(sp.refs.get(r), "_impl")]]
+                if holders and rng.random() < 0.5:
+                    p, sp = rng.choice(holders)
+                    rn = rng.choice([r for r in sp._own_refs if not hasattr(sp.refs.get(r), "_impl")])
+                    follow = ["set_ref", p, rn, rng.randint(0, 9)]
             ops.append(op)
             if op[0] == "flip":
                 continue
@@ -90,14 +114,42 @@ def gen_ops(rng):
     return ops
 
 
+KNOWN_DELSPACE = "C09-deleted-space-uncached-cells"
+
+
+def classify(ops, flags, pairs):
+    """known findings are recognised by their specific trigger.  pairs: the differing observations
+    (under the assignment, all cached)"""
+    if pairs and all(str(b).startswith("err Formula Deleted") and str(a).startswith("ok") for a, b in pairs):
+        # a space holding an uncached cells was deleted: BaseSpaceImpl.on_delete clears the values the cells of
+        # the space hold, an uncached cells holds none, and its object node - with the values cached callers
+        # elsewhere computed through it (reached by an object-valued reference) - stays
+        names = {n for n, c in flags.items() if not c} | {o[1] for o in ops if o[0] == "flip"}
+        if S.deleted_space_held_uncached(ops, names):
+            return KNOWN_DELSPACE
+    return None
+
+
 def check_history(ops, out, stats, assignments):
     deep_counter.install()
     d0 = deep_counter.count
     base = replay_with_flags(ops, {n: True for n in W.CELLS}, base=True)
     changed = len(set(r for r in base if isinstance(r, str))) > 2
     nontrivial = False
+    # the replay applies the assignment by NAME, at the operations that mention the name (creation, formula change,
+    # rename target, flip): two assignments that agree on the names the history mentions are the same run, and one
+    # that caches all of them (in a history without flips) is the all-cached run
+    used = ({o[2] for o in ops if o[0] in ("new_cells", "set_formula")} | {o[3] for o in ops if o[0] == "rename_cells"}
+            | {o[1] for o in ops if o[0] == "flip"})
+    has_flip = any(o[0] == "flip" for o in ops)
+    seen = set()
     for fl in assignments:
         flags = dict(zip(W.CELLS, fl))
+        proj = tuple(flags[n] for n in W.CELLS if n in used)
+        if proj in seen or (all(proj) and not has_flip):
+            stats["replays_skipped_same_run"] += 1
+            continue
+        seen.add(proj)
         got = replay_with_flags(ops, flags)
         stats["replays"] += 1
         if any(isinstance(r, str) and r.startswith("UNCACHED-HOLDS") for r in got):
@@ -109,16 +161,18 @@ def check_history(ops, out, stats, assignments):
             # first difference
             idx = next((i for i, (a, b) in enumerate(zip(got, base)) if a != b), None)
             a, b = (got[idx], base[idx]) if idx is not None else (len(got), len(base))
+            pairs = [(a, b)]
             if isinstance(a, tuple):
                 da, db = dict(a[1]), dict(b[1])
                 diff = {q: (da[q], db.get(q)) for q in da if da[q] != db.get(q)}
                 a, b = "final " + str(list(diff.items())[:2]), ""
                 if all("Deep" in str(v) for v in diff.values()):
                     continue
+                pairs = list(diff.values())
             if "Deep" in str(a) or "Deep" in str(b):
                 continue
             out.fail("results differ between the cached-flag assignment %s and all-cached: %s vs %s" % (flags, a, b),
-                     dict(S.hist_json(ops), flags=flags))
+                     dict(S.hist_json(ops), flags=flags), key=classify(ops, flags, pairs))
         if not all(fl) and changed:
             nontrivial = True
     return nontrivial
@@ -127,9 +181,9 @@ def check_history(ops, out, stats, assignments):
 def enumerate_single_edits(ctx, out, stats, allassign):
     """small-scope exhaustive part: every motif program x every applicable single edit x flag
     assignments: evaluate everything, edit, evaluate everything; results must not depend on flags"""
-    for mi, motif in enumerate(S.MOTIFS):
-        if not motif or any(o[0] == "set_value" for o in motif):
-            continue        # inputs need a cached cells
+    for mi, motif in enumerate(S.motifs_for(CFG)):
+        if not motif or any(o[0] in ("set_value", "set_cached") for o in motif):
+            continue        # inputs need a cached cells; the flags are the assignment's
         prefix = [["set_mref", "u", 11], ["set_mref", "r", 12]] + [list(o) for o in motif]
         close_all()
         live = W.Live("M")
@@ -137,10 +191,14 @@ def enumerate_single_edits(ctx, out, stats, allassign):
             for op in prefix:
                 live.apply(op)
             edits = [e for e in S.single_edits(live) if e[0] != "set_value"]   # inputs need a cached cells
+            refed = [e for e in S.ref_edits_existing(live, edits) if e[0] != "del_mref"]
         finally:
             live.close()
             close_all()
         rng = ctx.rng("enum", mi)
+        enumerate_flips(ctx, out, stats, allassign, mi, motif, prefix, refed)
+        if len([f for f in out.failures if not f.get("key")]) >= 4:
+            return
         if ctx.tier == "quick":
             # a seeded sample, plus every edit that changes what a sub space derives from
             always = [e for e in edits if e[0] in ("remove_bases", "del_cells") or (e[0] == "set_formula" and e[3][0] == 0)
@@ -156,6 +214,43 @@ def enumerate_single_edits(ctx, out, stats, allassign):
             check_history(ops, out, stats, assignments)
             if len([f for f in out.failures if not f.get("key")]) >= 4:
                 return
+
+
+def enumerate_flips(ctx, out, stats, allassign, mi, motif, prefix, refed):
+    """flag switches in mid-history: after the motif program with everything evaluated, the flag of one cells
+    name is switched (uncached -> cached and cached -> uncached, depending on the assignment), then one
+    existing reference is changed or deleted (with or without evaluating everything in between), and
+    everything is evaluated again.  What was computed THROUGH the switched cells while it had the other
+    flag must still follow the edit.  The all-cached run ignores the switch."""
+    names = [n for n in W.CELLS if any(o[0] == "new_cells" and o[2] == n for o in motif)]
+    rng = ctx.rng("flips", mi)
+    for n in names:
+        i = W.CELLS.index(n)
+        others = [j for j in range(len(W.CELLS)) if j != i and W.CELLS[j] in names]
+        if ctx.tier == "thorough":
+            assignments = allassign[1:]
+        else:
+            def asg(unc):
+                return tuple(k not in unc for k in range(len(W.CELLS)))
+            # n alone uncached (switched ON); n and one other; nothing cached; n cached next to an uncached one (switched OFF)
+            assignments = [asg({i}), allassign[-1]]
+            if others:
+                j = rng.choice(others)
+                assignments += [asg({i, j}), asg({j})]
+            else:
+                assignments += [allassign[0]]       # everything cached, n switched OFF
+        # quick tier: every edit of an existing reference after the extended motifs, a seeded sample of 3 after the others
+        es = refed if ctx.tier == "thorough" or mi >= len(S.MOTIFS) else rng.sample(refed, min(len(refed), 3))
+        for e in es:
+            variants = [[], [["evalall"]]]
+            if ctx.tier != "thorough":
+                variants = [rng.choice(variants)]
+            for mid in variants:
+                ops = prefix + [["evalall"], ["flip", n]] + mid + [e, ["evalall"]]
+                stats["enumerated_flip_scenarios"] += 1
+                check_history(ops, out, stats, assignments)
+                if len([f for f in out.failures if not f.get("key")]) >= 4:
+                    return
 
 
 def unhashable(out, stats):
